@@ -417,6 +417,56 @@ type connBuilder struct {
 	fd    *ast.FuncDecl
 	v     string // the variable
 	chanV bool
+	ft    *ast.FuncType // the type of the unit (declaration or literal)
+	owned bool          // a return statement hands the variable itself to the caller
+}
+
+func lastIsError(ft *ast.FuncType) bool {
+	if ft == nil || ft.Results == nil || len(ft.Results.List) == 0 {
+		return false
+	}
+	id, ok := ft.Results.List[len(ft.Results.List)-1].Type.(*ast.Ident)
+	return ok && id.Name == "error"
+}
+
+func typeReturnsChan(ft *ast.FuncType) bool {
+	return ft != nil && strings.Contains(shapeOf(ft).chans, "c")
+}
+
+// the function types of the units of a declaration, in the order of unitsOf
+func unitTypes(fd *ast.FuncDecl) []*ast.FuncType {
+	res := []*ast.FuncType{fd.Type}
+	ast.Inspect(fd.Body, func(n ast.Node) bool {
+		if fl, ok := n.(*ast.FuncLit); ok {
+			res = append(res, fl.Type)
+		}
+		return true
+	})
+	return res
+}
+
+// does the unit register `defer <v>.Close()` (directly or inside a deferred closure)?
+func deferredClose(body *ast.BlockStmt, v string) bool {
+	found := false
+	ast.Inspect(body, func(n ast.Node) bool {
+		if _, ok := n.(*ast.FuncLit); ok {
+			return false
+		}
+		d, ok := n.(*ast.DeferStmt)
+		if !ok {
+			return true
+		}
+		ast.Inspect(d.Call, func(k ast.Node) bool {
+			if c, ok := k.(*ast.CallExpr); ok {
+				if sel, ok := c.Fun.(*ast.SelectorExpr); ok && sel.Sel.Name == "Close" && isIdent(sel.X, v) {
+					found = true
+				}
+			}
+			return true
+		})
+		return false
+	})
+	return found
 }
 
 func cseq(parts []string) string {
@@ -529,12 +579,56 @@ func mentions(n ast.Node, name string) bool {
 	return found
 }
 
+// `v, err := <statement / lending call>` directly followed by `if err != nil { .. }`: database/sql (and every lending
+// function of the reader) returns either the result set / channel or an error, so the error branch runs exactly on the
+// refused path, on which the variable holds nothing: (CIf (CSeq CAsk <error branch>) <the acquisition>)
+func errCheck(st ast.Stmt) *ast.IfStmt {
+	x, ok := st.(*ast.IfStmt)
+	if !ok || x.Init != nil || x.Else != nil {
+		return nil
+	}
+	c, ok := x.Cond.(*ast.BinaryExpr)
+	if !ok || c.Op != token.NEQ || !isIdent(c.X, "err") || !isIdent(c.Y, "nil") {
+		return nil
+	}
+	return x
+}
+
 func (b *connBuilder) list(l []ast.Stmt) string {
 	var parts []string
-	for _, s := range l {
-		parts = append(parts, b.stmt(s))
+	for i := 0; i < len(l); i++ {
+		if a, ok := l[i].(*ast.AssignStmt); ok && i+1 < len(l) && len(a.Rhs) == 1 && firstLhs(a) == b.v && len(a.Lhs) == 2 && isIdent(a.Lhs[1], "err") {
+			if ifs := errCheck(l[i+1]); ifs != nil {
+				ev := b.stmt(a)
+				if strings.HasSuffix(ev, "CAcq") || strings.HasSuffix(ev, "CCallL") || strings.HasSuffix(ev, "CAcq)") || strings.HasSuffix(ev, "CCallL)") {
+					kind := "CAcq"
+					if b.chanV {
+						kind = "CCallL"
+					}
+					pre := strings.TrimSuffix(strings.TrimSuffix(ev, ")"), kind)
+					_ = pre
+					// the events of the arguments come first in both branches; the acquisition is the last event of ev
+					args := b.events("", argNodes(a.Rhs[0])...)
+					parts = append(parts, args, "(CIf "+cseq([]string{"CAsk", b.block(ifs.Body)})+" "+kind+")")
+					i++
+					continue
+				}
+			}
+		}
+		parts = append(parts, b.stmt(l[i]))
 	}
 	return cseq(parts)
+}
+
+func argNodes(e ast.Expr) []ast.Node {
+	var ns []ast.Node
+	if c, ok := e.(*ast.CallExpr); ok {
+		ns = append(ns, c.Fun)
+		for _, a := range c.Args {
+			ns = append(ns, a)
+		}
+	}
+	return ns
 }
 
 func (b *connBuilder) block(bl *ast.BlockStmt) string {
@@ -619,7 +713,21 @@ func (b *connBuilder) stmt(st ast.Stmt) string {
 		for _, a := range x.Results {
 			ns = append(ns, a)
 		}
-		return cseq([]string{b.events("", ns...), "CReturn"})
+		parts := []string{b.events("", ns...)}
+		for _, r := range x.Results {
+			if isIdent(r, b.v) {
+				// the variable itself goes to the caller: its flows have the call as a statement / lending call of their own
+				b.owned = true
+				if !b.chanV {
+					parts = append(parts, "CHand")
+				}
+			}
+		}
+		if lastIsError(b.ft) && len(x.Results) > 0 && !isIdent(x.Results[len(x.Results)-1], "nil") {
+			parts = append(parts, "CGiveUp")
+		}
+		parts = append(parts, "CReturn")
+		return cseq(parts)
 	case *ast.BranchStmt:
 		if x.Label == nil && x.Tok == token.BREAK {
 			return "CBreak"
@@ -697,6 +805,7 @@ func (b *connBuilder) stmt(st ast.Stmt) string {
 type connFlow struct {
 	file, fn, v, kind, body string
 	unit, line              int
+	deferred, retChan       bool
 }
 type qSite struct {
 	file, fn string
@@ -773,15 +882,18 @@ func writeConnFlows(b *strings.Builder, fset *token.FileSet, root string, files 
 			if !ok || fd.Body == nil {
 				continue
 			}
+			uts := unitTypes(fd)
 			for i, u := range unitsOf(fd) {
 				rows, chans := connVars(fd, u, rel(p), &sites, &untracked, fset)
 				for _, v := range rows {
-					cb := &connBuilder{fd: fd, v: v}
-					flows = append(flows, connFlow{rel(p), recvName(fd), v, "CKRows", cb.block(u), i, fset.Position(u.Pos()).Line})
+					cb := &connBuilder{fd: fd, v: v, ft: uts[i]}
+					body := cb.block(u)
+					flows = append(flows, connFlow{rel(p), recvName(fd), v, "CKRows", body, i, fset.Position(u.Pos()).Line, deferredClose(u, v), typeReturnsChan(uts[i]) || cb.owned})
 				}
 				for _, v := range chans {
-					cb := &connBuilder{fd: fd, v: v, chanV: true}
-					flows = append(flows, connFlow{rel(p), recvName(fd), v, "CKChan", cb.block(u), i, fset.Position(u.Pos()).Line})
+					cb := &connBuilder{fd: fd, v: v, chanV: true, ft: uts[i]}
+					body := cb.block(u)
+					flows = append(flows, connFlow{rel(p), recvName(fd), v, "CKChan", body, i, fset.Position(u.Pos()).Line, false, typeReturnsChan(uts[i]) || cb.owned})
 				}
 			}
 		}
@@ -802,8 +914,8 @@ func writeConnFlows(b *strings.Builder, fset *token.FileSet, root string, files 
 		if i == len(flows)-1 {
 			sep = ""
 		}
-		fmt.Fprintf(b, "  {| cf_file := %q; cf_func := %q; cf_unit := %d; cf_var := %q; cf_kind := %s;\n     cf_body := %s |}%s (* line %d *)\n",
-			f.file, f.fn, f.unit, f.v, f.kind, f.body, sep, f.line)
+		fmt.Fprintf(b, "  {| cf_file := %q; cf_func := %q; cf_unit := %d; cf_var := %q; cf_kind := %s; cf_deferred_close := %s; cf_returns_chan := %s;\n     cf_body := %s |}%s (* line %d *)\n",
+			f.file, f.fn, f.unit, f.v, f.kind, bstr(f.deferred), bstr(f.retChan), f.body, sep, f.line)
 	}
 	b.WriteString("].\n\n(* every statement site: a call named QueryCtx / QueryContext / Queryx; bound = its result set goes into a variable that has a flow *)\n")
 	b.WriteString("Definition reader_query_sites : list qsite := [\n")
